@@ -75,6 +75,9 @@ fn read_table(sys : &VSys, paths : &Vec<String>) -> Read<Vec<(String, FileState)
     {
         Ok(Ok(mut table)) =>
         {
+            // take_blob() fills in FileState::empty() for absent paths, which computes a SHA-256; under Miri the SHA-256
+            // dependency cannot be executed (VERIF_NOHASH=1), so only the decoding itself is exercised there
+            if crate::verif::util::env_u64("VERIF_NOHASH", 0) == 1 { return Read::Value(vec![]); }
             let blob = table.take_blob(paths.clone());
             Read::Value(blob.get_file_infos().into_iter().map(|i| (i.path, i.file_state)).collect())
         },
